@@ -85,20 +85,19 @@ check:
 		goto pop;
 	}
 
-	/* otherwise check if the current exception overlaps with E */
-	with (echs_range_t r = echs_event_range(e)) {
-		if (echs_range_overlaps_p(r, this->ex)) {
-			/* yes it does */
-			(void)echs_evstrm_pop(this->e);
-			e = echs_evstrm_next(this->e);
-			goto check;
-		} else if (echs_range_precedes_p(this->ex, r)) {
-			/* we can't say for sure yet as there could be
-			 * another exception in the range of E */
-			echs_event_t ex = echs_evstrm_pop(this->x);
-			this->ex = echs_event_range(ex);
-			goto check;
-		}
+	/* otherwise check if the current exception names E,
+	 * i.e. if they start at the same instant (RFC 5545, 3.8.5.1) */
+	if (echs_instant_eq_p(e.from, this->ex.beg)) {
+		/* yes it does */
+		(void)echs_evstrm_pop(this->e);
+		e = echs_evstrm_next(this->e);
+		goto check;
+	} else if (echs_instant_lt_p(this->ex.beg, e.from)) {
+		/* we can't say for sure yet as there could be
+		 * another exception naming E */
+		echs_event_t ex = echs_evstrm_pop(this->x);
+		this->ex = echs_event_range(ex);
+		goto check;
 	}
 	/* otherwise it's certainly safe */
 pop:
